@@ -105,7 +105,11 @@ def check_construct(k, tier, acc, only=None):
                         acc.n("traces")
                         acc.n("transitions")
                         try:
-                            got = h.construct(dict(d), default_value=dflt, dtype=dt) if dflt is not None or dt is not np.int64 else h.construct(dict(d))
+                            dd = dict(d)
+                            got = h.construct(dd, default_value=dflt, dtype=dt) if dflt is not None or dt is not np.int64 else h.construct(dd)
+                            if dd != d or list(dd) != list(d):
+                                acc.violation(None, case, {"what": "construct() changed the caller's dictionary", "before": repr(d), "after": repr(dd)})
+                                continue
                         except BaseException as e:
                             acc.violation(None, case, {"what": "construct raised", "exc": repr(e), "ids": ids, "bounds": bds, "dict": repr(d), "dtype": dt.__name__})
                             continue
